@@ -431,6 +431,7 @@ static void cmd_gssvx(kv_t *K)
 		    long double an, ain, ae = 0, kap; lc *ev = lc_zeros(n); int nrm1 = (op == 0);   /* 1-norm when A X = B, inf-norm otherwise */
 		    an = nrm1 ? norm1(n, Aeq) : norminf(n, Aeq); ain = nrm1 ? norm1(n, Inv) : norminf(n, Inv);
 		    kap = an * ain; condk = kap < 1e15L ? (long) kap : 1000000000L;
+		    if (getenv("VERIF_DEBUG")) fprintf(stderr, "cond dbg op=%d nrm1=%d an=%Lg ain=%Lg rcond=%g\n", op, nrm1, an, ain, (double) rcond);
 		    {   /* Skeel condition number || |M^-1| |M| ||_inf of the system that is refined, M = op(Aeq): what the
 			   contraction of componentwise iterative refinement depends on (invariant under row scaling of M) */
 			int_t k2; skeel = 0;
@@ -473,6 +474,19 @@ static void cmd_gssvx(kv_t *K)
 			if (best < HUGE_VALL && best > 0) rpgdev = permille(fabsl((long double) rpg - best) / (best * 64.0L * UNIT_ROUNDOFF));
 			if (best < HUGE_VALL && best > 0 && best < 1) growth = 1.0L / best;
 			free(ipc);
+		    }
+		    if (getenv("VERIF_DEBUG") && !extract_LU(&S.L, &S.U, n, Ld, Ud)) {   /* do the solves ?gscon relies on agree with the dense factors? */
+			SCALAR *w = scalarMalloc(n); lc *y = lc_zeros(n); int_t inf2 = 0; long double d1 = 0, d2 = 0; int k2;
+			for (k2 = 0; k2 < 2; ++k2) {
+			    for (i = 0; i < n; ++i) { w[i] = mk_scalar(1.0 / n * (k2 ? (i % 2 ? -1 : 1) * (1.0 + i / (double) (n - 1)) : 1.0), 0); y[i] = to_lc(w[i]); }
+			    if (k2 == 0) { SPG(trsv)("L", "N", "U", &S.L, &S.U, w, &inf2);
+				for (j = 0; j < n; ++j) { for (i = j + 1; i < n; ++i) y[i] -= Ld[i + (long) j * n] * y[j]; } }          /* unit lower only */
+			    else { SPG(trsv)("U", "N", "N", &S.L, &S.U, w, &inf2);
+				for (j = n - 1; j >= 0; --j) { y[j] /= Ud[j + (long) j * n]; for (i = 0; i < j; ++i) y[i] -= Ud[i + (long) j * n] * y[j]; } }
+			    for (i = 0; i < n; ++i) { long double d = cabsl(to_lc(w[i]) - y[i]); if (d > (k2 ? d2 : d1)) { if (k2) d2 = d; else d1 = d; } }
+			}
+			fprintf(stderr, "trsv dbg max |sp_trsv - dense|: L-solve %Lg  U-solve %Lg\n", d1, d2);
+			SUPERLU_FREE(w); free(y);
 		    }
 		    free(Ld); free(Ud); if (Af != Aeq) free(Af);
 		}
